@@ -122,7 +122,7 @@ func HarnessC09WordCount() {
 	var blocks string
 	n := vx.Param("n", 3)
 	for i := 0; i < n; i++ {
-		switch vx.Choose("kind", 4) {
+		switch vx.Choose("kind", 6) {
 		case 0:
 			blocks += "<p>" + toks[i] + "</p>"
 		case 1:
@@ -131,6 +131,10 @@ func HarnessC09WordCount() {
 			blocks += "<ul><li>" + toks[i] + "</li></ul>"
 		case 3:
 			blocks += "<div role=\"navigation\">" + toks[i] + "</div>"
+		case 4: // conflicting visibility signals
+			blocks += "<p hidden style=\"display:block\">" + toks[i] + "</p>"
+		case 5:
+			blocks += "<p style=\"display:block\" aria-hidden=\"true\">" + toks[i] + "</p>"
 		}
 	}
 	doc := vx.ParseHTML("<html><head></head><body><div>" + blocks + "</div></body></html>")
